@@ -124,6 +124,9 @@ func (it *Interp) newCell(v Value, t types.Type, tag string) *Cell {
 type specAbort struct{}
 
 func (it *Interp) choose(alts []*Term, exhaustive bool) int {
+	if it.sum != nil {
+		return it.sumChoose(alts)
+	}
 	if it.spec > 0 {
 		for i, a := range alts {
 			if a.IsTrue() {
@@ -131,9 +134,6 @@ func (it *Interp) choose(alts []*Term, exhaustive bool) int {
 			}
 		}
 		panic(specAbort{})
-	}
-	if it.sum != nil {
-		return it.sumChoose(alts)
 	}
 	// fast path: constant alternatives
 	nonFalse := -1
@@ -929,7 +929,7 @@ func (it *Interp) call(fn *ssa.Function, args []Value, binds []Value) (ret Value
 		it.stubsUsed[name] = true
 		return h(it, fn, args)
 	}
-	if it.sum == nil && it.spec == 0 && it.noSum == 0 && it.h.summarizable(name) {
+	if it.sum == nil && it.noSum == 0 && it.h.summarizable(name) {
 		if v, ok := it.summarize(fn, args, binds); ok {
 			return v
 		}
@@ -2497,6 +2497,20 @@ func (it *Interp) specRegion(fr *frame, b, pred *ssa.BasicBlock, g *Term, J *ssa
 			// only length-like builtins
 			if bi, ok := x.Call.Value.(*ssa.Builtin); ok && (bi.Name() == "len" || bi.Name() == "cap" || bi.Name() == "min" || bi.Name() == "max") {
 				it.exec(fr, ins)
+				continue
+			}
+			if f := x.Call.StaticCallee(); f != nil && it.h.summarizable(f.String()) {
+				// a summarised pure callee makes no decisions of its own
+				args := make([]Value, len(x.Call.Args))
+				for i, a := range x.Call.Args {
+					args[i] = it.get(fr, a)
+				}
+				v, ok := it.summarize(f, args, nil)
+				if !ok {
+					return false
+				}
+				it.top = fr
+				fr.env[x] = v
 				continue
 			}
 			return false
